@@ -113,7 +113,17 @@ func VerifC16_RangeSplit() {
 	vs.Assume(b.sections <= uint64(vs.Param("N")) && b.sections*b.size <= b.head+1)
 	begin, end := vs.I64("begin"), vs.I64("end")
 	vs.Assume(begin >= -1 && begin <= int64(maxHead)+1)
-	vs.Assume(end >= -1 && end <= int64(maxHead)+1)
+	// param pending = 1 adds toBlock = -2 ("pending") to the domain; the real code
+	// then drops every block outside the indexed part (see report), which the
+	// harness files under a known-finding class
+	endLo := int64(-1)
+	if vs.Param("pending") != 0 {
+		endLo = -2
+	}
+	vs.Assume(end >= endLo && end <= int64(maxHead)+1)
+	if vs.Param("pending") != 0 {
+		vs.Known("C16-toBlock-pending-truncated", end == -2)
+	}
 
 	f := New(b, begin, end, nil, nil)
 	logs, err := f.Logs(context.Background())
@@ -124,7 +134,7 @@ func VerifC16_RangeSplit() {
 		first = b.head
 	}
 	last := uint64(end)
-	if end == -1 || last > b.head {
+	if end < 0 || last > b.head {
 		last = b.head
 	}
 	// expected: first..last, empty if first > last
